@@ -638,6 +638,8 @@ def multigrid(model, sfield, efield, var, **kwargs):
             # Adjust semicoarsening and line relaxation if they cycle.
             if var.sc_cycle:
                 var.sc_dir = next(var.sc_cycle)
+                # The coarsest level, and hence cycmax, depends on sc_dir.
+                cycmax = 1 if level == var.clevel[var.sc_dir] else var.cycmax
             if var.lr_cycle:
                 var.lr_dir = next(var.lr_cycle)
 
